@@ -957,3 +957,229 @@ fn C16_stateless_shared_between_threads() {
     }
     assert_eq!(bad, 0);
 }
+
+// ================================================================================================
+// Sweeps that need no knowledge of how the code is organised (safety net under restructured code: when a function
+// has been rewritten so that its proof anchors are gone, the deductive check is undecided and these decide whether a
+// concrete failing input exists)
+// ================================================================================================
+fn hs_payload(j: usize) -> Vec<u8> { (0..(j * 5 + 6)).map(|x| (x as u8).wrapping_mul(29).wrapping_add(0x61)).collect() }
+/// an unusual but legal DH: X25519 whose shared secret is truncated to 16 bytes (pub_len 32 != dh_len 16)
+struct OddDh { inner: Box<dyn Dh> }
+impl Dh for OddDh {
+    fn name(&self) -> &'static str { self.inner.name() }
+    fn pub_len(&self) -> usize { self.inner.pub_len() }
+    fn priv_len(&self) -> usize { self.inner.priv_len() }
+    fn set(&mut self, k: &[u8]) { self.inner.set(k) }
+    fn generate(&mut self, rng: &mut dyn Random) { self.inner.generate(rng) }
+    fn pubkey(&self) -> &[u8] { self.inner.pubkey() }
+    fn privkey(&self) -> &[u8] { self.inner.privkey() }
+    fn dh(&self, pk: &[u8], out: &mut [u8]) -> Result<(), Error> { self.inner.dh(pk, out) }
+    fn dh_len(&self) -> usize { 16 }
+}
+struct OddRes;
+impl CryptoResolver for OddRes {
+    fn resolve_rng(&self) -> Option<Box<dyn Random>> { DefaultResolver.resolve_rng() }
+    fn resolve_dh(&self, c: &DHChoice) -> Option<Box<dyn Dh>> { Some(Box::new(OddDh { inner: DefaultResolver.resolve_dh(c)? })) }
+    fn resolve_hash(&self, c: &HashChoice) -> Option<Box<dyn Hash>> { DefaultResolver.resolve_hash(c) }
+    fn resolve_cipher(&self, c: &CipherChoice) -> Option<Box<dyn Cipher>> { DefaultResolver.resolve_cipher(c) }
+}
+fn resolver(odd: bool) -> Option<BoxedCryptoResolver> { if odd { Some(Box::new(OddRes)) } else { None } }
+/// the honest session of `c` up to (not including) message k
+fn upto(c: &Cfg, k: usize, odd: bool) -> (HandshakeState, HandshakeState) {
+    let (mut i, mut r) = (build(c, true, resolver(odd)).unwrap(), build(c, false, resolver(odd)).unwrap());
+    let mut buf = vec![0u8; 2000]; let mut p = vec![0u8; 2000];
+    for j in 0..k { let (w, rd) = if j % 2 == 0 { (&mut i, &mut r) } else { (&mut r, &mut i) }; let n = w.write_message(&hs_payload(j), &mut buf).unwrap(); rd.read_message(&buf[..n], &mut p).unwrap(); }
+    (i, r)
+}
+/// continue the handshake honestly from message `from`; true iff some call fails before both sides are finished
+fn rest_detects(i: &mut HandshakeState, r: &mut HandshakeState, from: usize, nh: usize) -> bool {
+    let mut buf = vec![0u8; 2000]; let mut p = vec![0u8; 2000];
+    for j in from..nh {
+        let (w, rd) = if j % 2 == 0 { (&mut *i, &mut *r) } else { (&mut *r, &mut *i) };
+        let n = match w.write_message(&hs_payload(j), &mut buf) { Ok(n) => n, Err(_) => return true };
+        if rd.read_message(&buf[..n], &mut p).is_err() { return true; }
+    }
+    false
+}
+const SWEEP_NAMES: [&str; 12] = ["Noise_NN_25519_ChaChaPoly_SHA256", "Noise_XX_25519_ChaChaPoly_SHA256", "Noise_IK_25519_ChaChaPoly_SHA256", "Noise_NK_25519_ChaChaPoly_SHA256",
+    "Noise_KK_25519_ChaChaPoly_SHA256", "Noise_X_25519_ChaChaPoly_SHA256", "Noise_IX_25519_ChaChaPoly_SHA256", "Noise_XK1_25519_ChaChaPoly_SHA256",
+    "Noise_XXpsk3_25519_ChaChaPoly_SHA256", "Noise_NNpsk0_25519_ChaChaPoly_SHA256", "Noise_KNpsk2_25519_AESGCM_SHA512", "Noise_XX_25519_AESGCM_BLAKE2b"];
+#[test]
+fn C03_every_single_bit_truncation_and_extension_of_every_handshake_message() {
+    let mut bad = 0;
+    for name in SWEEP_NAMES {
+        let c = cfg(name); let nh = table_entry(&base_pattern(name)).3.len();
+        for k in 0..nh {
+            let arm = || -> (HandshakeState, HandshakeState, Vec<u8>) {
+                let (mut i, mut r) = upto(&c, k, false); let mut buf = vec![0u8; 2000];
+                let n = if k % 2 == 0 { i.write_message(&hs_payload(k), &mut buf).unwrap() } else { r.write_message(&hs_payload(k), &mut buf).unwrap() };
+                (i, r, buf[..n].to_vec())
+            };
+            let (mut i, mut r, msg) = arm();
+            let mut alterations: Vec<(String, Vec<u8>)> = vec![];
+            for bit in 0..msg.len() * 8 { let mut m = msg.clone(); m[bit / 8] ^= 1 << (bit % 8); alterations.push((format!("bit {} of byte {} flipped", bit % 8, bit / 8), m)); }
+            for cut in 0..msg.len() { alterations.push((format!("truncated to {} bytes", cut), msg[..cut].to_vec())); }
+            for ext in [1usize, 2, 16, 17] { let mut m = msg.clone(); m.extend(std::iter::repeat(0u8).take(ext)); alterations.push((format!("extended by {} zero bytes", ext), m)); }
+            let mut p = vec![0u8; 2000];
+            for (what, m) in alterations {
+                // a rejected read changes nothing (C07), so the armed reader is reused until it accepts something
+                let accepted = if k % 2 == 0 { r.read_message(&m, &mut p).is_ok() } else { i.read_message(&m, &mut p).is_ok() };
+                if accepted {
+                    if !rest_detects(&mut i, &mut r, k + 1, nh) { finding("C03", format!("{}: handshake message {} ({} bytes) with {} is accepted and both parties finish the handshake without any error", name, k, msg.len(), what)); bad += 1; }
+                    let a = arm(); i = a.0; r = a.1;
+                    if a.2 != msg { finding("C02", format!("{}: the same configuration produced a different message {} on a second run", name, k)); bad += 1; }
+                }
+                if bad >= 4 { break; }
+            }
+            if bad >= 4 { break; }
+        }
+        if bad >= 4 { break; }
+    }
+    assert_eq!(bad, 0);
+}
+/// does a cipher key exist when token `tok_idx` of message k is processed (i.e. is that field encrypted)?
+fn keyed_at(name: &str, k: usize, tok: &str) -> bool {
+    let e = table_entry(&base_pattern(name));
+    let psk0 = name.contains("psk0"); let mut keyed = false;
+    for (j, m) in e.3.iter().enumerate() {
+        if psk_positions(name).contains(&(0u8)) && j == 0 && psk0 { keyed = true; }
+        for t in m.iter() {
+            if j == k && *t == tok { return keyed; }
+            if ["ee", "es", "se", "ss"].contains(t) { keyed = true; }
+            if *t == "e" && !psk_positions(name).is_empty() { keyed = true; }
+        }
+        if psk_positions(name).contains(&((j + 1) as u8)) { keyed = true; }
+    }
+    keyed
+}
+#[test]
+fn C17_C19_rejected_handshake_messages_reveal_and_install_nothing() {
+    let mut bad = 0;
+    let secret: Vec<u8> = (0..48u8).map(|x| x.wrapping_mul(11).wrapping_add(0x30)).collect();
+    for odd in [false, true] {
+        for e in TABLE.iter() {
+            let name = format!("Noise_{}_25519_ChaChaPoly_SHA256", e.0); let c = cfg(&name); let nh = e.3.len();
+            for k in 0..nh {
+                if !e.3[k].contains(&"s") { continue; }
+                let (mut i, mut r) = upto(&c, k, odd);
+                let (w, rd, sender_pub) = if k % 2 == 0 { (&mut i, &mut r, &c.si.1) } else { (&mut r, &mut i, &c.sr.1) };
+                let mut buf = vec![0u8; 2000];
+                let n = w.write_message(&secret, &mut buf).unwrap(); let msg = buf[..n].to_vec();
+                let s_encrypted = keyed_at(&name, k, "s");
+                let s_off = if e.3[k].contains(&"e") { 32 } else { 0 };
+                let payload_encrypted = w.was_write_payload_encrypted();
+                let mut alts: Vec<(String, Vec<u8>)> = vec![];
+                for pos in [n - 1, n - 17, s_off, s_off + 31, s_off + 32, s_off + 47, n - secret.len() - 16, 0] { if pos < n { let mut m = msg.clone(); m[pos] ^= 0x20; alts.push((format!("byte {} altered", pos), m)); } }
+                for cut in [n - 1, n - 16, n - 17, s_off + 48, s_off + 40, s_off + 32, s_off + 8] { if cut < n { alts.push((format!("truncated to {} bytes", cut), msg[..cut].to_vec())); } }
+                let mut moved_on = false;
+                for out_len in [secret.len(), 64usize, 100, 400] {
+                    if moved_on { break; }
+                    for (what, m) in alts.iter() {
+                        let before = rd.get_remote_static().map(|x| x.to_vec());
+                        let mut p = vec![0xEEu8; out_len];
+                        if rd.read_message(m, &mut p).is_ok() { moved_on = true; break; }      // (an unauthenticated field was altered: the reader has legitimately moved on)
+                        let after = rd.get_remote_static().map(|x| x.to_vec());
+                        if after != before && after.as_deref() != Some(&sender_pub[..]) {
+                            finding("C17", format!("{}{}: after the REJECTED message {} ({}) get_remote_static() is {:?}; before the call it was {:?}; the peer's true key is {}", name, if odd { " (DH with a 16-byte shared secret)" } else { "" }, k, what, after.as_deref().map(hexs), before.as_deref().map(hexs), hexs(sender_pub))); bad += 1;
+                        }
+                        if s_encrypted && p.windows(8).any(|w8| sender_pub.windows(8).any(|s8| s8 == w8)) {
+                            finding("C19", format!("{}{}: message {} ({}) is rejected but the {}-byte payload buffer holds (part of) the decrypted static key of the sender", name, if odd { " (DH with a 16-byte shared secret)" } else { "" }, k, what, out_len)); bad += 1;
+                        }
+                        if payload_encrypted && p.windows(12).any(|w12| secret.windows(12).any(|s12| s12 == w12)) {
+                            finding("C19", format!("{}: message {} ({}) is rejected but the {}-byte payload buffer holds its decrypted payload", name, k, what, out_len)); bad += 1;
+                        }
+                        if bad >= 4 { break; }
+                    }
+                    if bad >= 4 { break; }
+                }
+                if moved_on { continue; }
+                // the genuine message is still accepted afterwards and conveys the key
+                let mut p = vec![0u8; 400];
+                match rd.read_message(&msg, &mut p) { Ok(l) if p[..l] == secret[..] => {}, o => { finding("C07", format!("{}: after rejected deliveries the genuine message {} returns {:?}", name, k, o)); bad += 1; } }
+                if rd.get_remote_static() != Some(&sender_pub[..]) { finding("C17", format!("{}{}: after message {} (which carries s) get_remote_static() is {:?}", name, if odd { " (DH with a 16-byte shared secret)" } else { "" }, k, rd.get_remote_static().map(hexs))); bad += 1; }
+                if bad >= 4 { break; }
+            }
+            if bad >= 4 { break; }
+        }
+        // complete sessions with the unusual DH (both sides): every pattern still completes and delivers
+        if odd {
+            for e in TABLE.iter() {
+                let name = format!("Noise_{}_25519_AESGCM_SHA256", e.0); let c = cfg(&name);
+                let (mut i, mut r) = upto(&c, 0, true);
+                if rest_detects(&mut i, &mut r, 0, e.3.len()) || i.get_handshake_hash() != r.get_handshake_hash() { finding("C02", format!("{}: with a DH whose shared secret is 16 bytes (dh_len != pub_len) the honest session fails", name)); bad += 1; }
+            }
+        }
+    }
+    assert_eq!(bad, 0);
+}
+#[test]
+fn C08_set_psk_replaces_the_builder_psk() {
+    let mut bad = 0;
+    let (ka, kb) = ([0xA1u8; 32], [0xB2u8; 32]);
+    for name in ["Noise_NNpsk0_25519_ChaChaPoly_SHA256", "Noise_NNpsk2_25519_ChaChaPoly_SHA256", "Noise_XXpsk3_25519_AESGCM_SHA256", "Noise_IKpsk1_25519_ChaChaPoly_BLAKE2s", "Noise_Npsk0_25519_ChaChaPoly_SHA256", "Noise_XKpsk0+psk3_25519_ChaChaPoly_SHA256"] {
+        let nh = table_entry(&base_pattern(name)).3.len();
+        let run = |ki: [u8; 32], set_i: Option<[u8; 32]>, kr: [u8; 32], set_r: Option<[u8; 32]>| -> Result<Vec<u8>, String> {
+            let mut ci = cfg(name); ci.psk = ki; let mut cr = cfg(name); cr.psk = kr;
+            let (mut i, mut r) = (build(&ci, true, None).map_err(|e| format!("{:?}", e))?, build(&cr, false, None).map_err(|e| format!("{:?}", e))?);
+            for p in psk_positions(name) { if let Some(k) = set_i { i.set_psk(p as usize, &k).map_err(|e| format!("set_psk {:?}", e))?; } if let Some(k) = set_r { r.set_psk(p as usize, &k).map_err(|e| format!("set_psk {:?}", e))?; } }
+            let mut buf = vec![0u8; 2000]; let mut p = vec![0u8; 2000]; let mut all = vec![];
+            for j in 0..nh { let (w, rd) = if j % 2 == 0 { (&mut i, &mut r) } else { (&mut r, &mut i) }; let n = w.write_message(&hs_payload(j), &mut buf).map_err(|e| format!("write {} {:?}", j, e))?; rd.read_message(&buf[..n], &mut p).map_err(|e| format!("read {} {:?}", j, e))?; all.extend_from_slice(&buf[..n]); }
+            all.extend_from_slice(i.get_handshake_hash()); Ok(all)
+        };
+        let reference = run(kb, None, kb, None);
+        if reference.is_err() { finding("C02", format!("{}: honest psk session fails: {:?}", name, reference)); bad += 1; continue; }
+        for (what, got) in [("initiator built with psk A then set_psk(B), responder built with B", run(ka, Some(kb), kb, None)), ("both built with A, both set_psk(B)", run(ka, Some(kb), ka, Some(kb))), ("responder built with A then set_psk(B)", run(kb, None, ka, Some(kb)))] {
+            if got != reference { finding("C08", format!("{}: {}: the transcript is not the one of a session keyed with B from the start ({})", name, what, match &got { Ok(_) => "different bytes".to_string(), Err(e) => e.clone() })); bad += 1; }
+        }
+        for (what, got) in [("initiator set_psk(B) over A, responder keeps A", run(ka, Some(kb), ka, None)), ("psk A against psk B", run(ka, None, kb, None)), ("both built with B, responder set_psk(A)", run(kb, None, kb, Some(ka)))] {
+            if got.is_ok() { finding("C08", format!("{}: {}: the two parties hold different PSKs, yet the handshake completes", name, what)); bad += 1; }
+        }
+    }
+    assert_eq!(bad, 0);
+}
+#[test]
+fn C10_transport_setters_and_conversions_never_panic() {
+    let mut bad = 0;
+    let mut check = |what: String, f: &mut dyn FnMut()| { if catch_unwind(AssertUnwindSafe(|| f())).is_err() { finding("C10", format!("{} panics", what)); bad += 1; } };
+    for name in ["Noise_XX_25519_ChaChaPoly_SHA256", "Noise_N_25519_AESGCM_SHA512", "Noise_NNpsk2_25519_AESGCM_BLAKE2s"] {
+        let (i, r) = finished_pair(name); let (i2, r2) = finished_pair(name);
+        let (mut ti, mut tr) = (i.into_transport_mode().unwrap(), r.into_transport_mode().unwrap());
+        let (si, sr) = (i2.into_stateless_transport_mode().unwrap(), r2.into_stateless_transport_mode().unwrap());
+        let mut good = vec![0u8; 100]; let gl = si.write_message(7, b"0123456789abcdefXYZ", &mut good).unwrap(); good.truncate(gl);
+        for plen in [0usize, 1, 15, 16, 17, 40] {
+            let payload = vec![0x5Au8; plen];
+            for olen in (0..70).chain([plen + 15, plen + 16, plen + 17]) {
+                let mut out = vec![0u8; olen];
+                check(format!("{}: TransportState::write_message({} bytes, {}-byte buffer)", name, plen, olen), &mut || { let _ = ti.write_message(&payload, &mut out); });
+                let mut out = vec![0u8; olen];
+                check(format!("{}: StatelessTransportState::write_message({} bytes, {}-byte buffer)", name, plen, olen), &mut || { let _ = si.write_message(3, &payload, &mut out); });
+                let mut out = vec![0u8; olen];
+                check(format!("{}: TransportState::read_message({}-byte message, {}-byte buffer)", name, plen, olen), &mut || { let _ = tr.read_message(&payload, &mut out); });
+                let mut out = vec![0u8; olen];
+                check(format!("{}: StatelessTransportState::read_message({}-byte message, {}-byte buffer)", name, plen, olen), &mut || { let _ = sr.read_message(3, &payload, &mut out); let _ = sr.read_message(7, &good[..good.len().min(olen)], &mut out); });
+                let mut out = vec![0u8; olen];
+                check(format!("{}: StatelessTransportState::read_message(genuine {}-byte message, {}-byte buffer)", name, good.len(), olen), &mut || { let _ = sr.read_message(7, &good, &mut out); });
+            }
+        }
+        let big = vec![1u8; 70000];
+        for plen in [65519usize, 65520, 65535, 65536, 70000] { for olen in [0usize, 16, 65535, 65536, 70000] {
+            let mut out = vec![0u8; olen];
+            check(format!("{}: transport write of {} bytes into {} bytes", name, plen, olen), &mut || { let _ = ti.write_message(&big[..plen], &mut out); let _ = si.write_message(1, &big[..plen], &mut out); let _ = tr.read_message(&big[..plen], &mut out); let _ = sr.read_message(1, &big[..plen], &mut out); });
+        } }
+        check(format!("{}: nonce setters / getters / rekey", name), &mut || { tr.set_receiving_nonce(u64::MAX); let _ = tr.receiving_nonce(); let _ = tr.sending_nonce(); tr.rekey_incoming(); tr.rekey_outgoing(); tr.rekey_manually(None, None); let _ = tr.get_remote_static(); let _ = tr.is_initiator(); let mut o = [0u8; 64]; let _ = tr.read_message(&[0u8; 40], &mut o); let _ = tr.write_message(b"x", &mut o); });
+        // handshake-phase: set_psk with any position / length, conversions and getters at any time
+        let c = cfg(name); let nh = table_entry(&base_pattern(name)).3.len();
+        for k in 0..=nh {
+            for loc in [0usize, 1, 2, 3, 4, 9, 10, 11, 255, usize::MAX] { for len in [0usize, 1, 31, 32, 33, 64] {
+                let (mut i, _r) = upto(&c, k.min(nh), false); let key = vec![9u8; len];
+                check(format!("{}: set_psk({}, {} bytes) after {} messages", name, loc, len, k), &mut || { let _ = i.set_psk(loc, &key); });
+            } }
+            let (i, r) = upto(&c, k, false);
+            check(format!("{}: getters after {} messages", name, k), &mut || { let _ = i.get_remote_static(); let _ = i.get_handshake_hash(); let _ = i.is_my_turn(); let _ = i.is_handshake_finished(); let _ = i.was_write_payload_encrypted(); let _ = r.is_initiator(); });
+            let mut hs = Some((i, r));
+            check(format!("{}: into_transport_mode / into_stateless_transport_mode after {} of {} messages", name, k, nh), &mut || { let (i, r) = hs.take().unwrap(); let _ = i.into_transport_mode(); let _ = r.into_stateless_transport_mode(); });
+        }
+    }
+    assert_eq!(bad, 0);
+}
